@@ -584,6 +584,10 @@ func scenarios(tier string) []*explore.Scenario {
 		for _, script := range []string{"emit-end", "emit-error", "panic"} {
 			add(scen{Proto: proto, Steps: []step{{Kind: "init"}, {Kind: "start", ID: 1}, {Kind: "await-terminated", ID: 1}, {Kind: "start", ID: 1}, {Kind: "await-terminated", ID: 1}}, Script: script, InitFunc: "none"}, &one)
 		}
+		// two operations emitting on one connection: every frame carries its own operation's data
+		for _, script := range []string{"emit-end", "emit2-end"} {
+			add(scen{Proto: proto, Steps: []step{{Kind: "init"}, {Kind: "start", ID: 1}, {Kind: "start", ID: 2}}, Script: script, InitFunc: "none"}, &two)
+		}
 		// a start that fails before execution (unparsable query / payload) re-using the id of a running operation
 		for _, bad := range []string{"start-badquery", "start-badpayload"} {
 			for _, script := range []string{"block", "emit-end", "emit2-end"} {
